@@ -80,11 +80,13 @@ pub struct Rt {
     pub max_samples: usize,
     /// order-sensitive digest of every (schedule, history) observed since it was last reset
     pub digest: u64,
+    /// fidelity sampling: (case, recorded history) of deterministic runs (at most one thread besides main at a time)
+    pub fidelity_sink: Option<Vec<(Arc<Case>, Vec<Ev>)>>,
 }
 
 impl Rt {
     pub fn new() -> Rt {
-        Rt { stats: Stats::default(), max_samples: 6, digest: 0 }
+        Rt { stats: Stats::default(), max_samples: 6, digest: 0, fidelity_sink: None }
     }
 
     /// one simulated execution of the real engine
@@ -102,6 +104,11 @@ impl Rt {
         let hh = out.history_hash();
         s.histories.insert(hh);
         self.digest = self.digest.rotate_left(5) ^ hh ^ out.schedule_hash().rotate_left(32);
+        if let Some(sink) = &mut self.fidelity_sink {
+            if case.threads.len() <= 1 && out.verdict == Verdict::Completed && sink.len() < 4000 {
+                sink.push((case.clone(), out.log.clone()));
+            }
+        }
         if let Verdict::Crash(m) = &out.verdict {
             if !m.starts_with("deadlock!") {
                 s.harness_errors.push(format!("panic escaped a simulated task: {}", m));
